@@ -54,7 +54,14 @@ func genC18(t *rapid.T) c18Case {
 			idx = rapid.Uint64Range(0, last).Draw(t, "uni")
 		}
 		var v *big.Int
-		switch rapid.IntRange(0, 5).Draw(t, "val_kind") {
+		switch rapid.IntRange(0, 6).Draw(t, "val_kind") {
+		case 6:
+			// a value written earlier (possibly at another leaf)
+			if len(c.Steps) > 0 {
+				v = ref.Clone(c.Steps[rapid.IntRange(0, len(c.Steps)-1).Draw(t, "earlier")].Value)
+			} else {
+				v = big.NewInt(5)
+			}
 		case 0:
 			v = big.NewInt(0)
 		case 1:
@@ -99,7 +106,8 @@ func runC18(c c18Case) Result {
 	if got.Cmp(model.Root()) != 0 {
 		return bad(class, "NewTree:initial-root", "depth %d: initial root %s != all-zero tree root %s", c.Depth, got.String(), model.Root())
 	}
-	overwrite, erase, bothChildren := false, false, false
+	overwrite, erase, bothChildren, reusedObject := false, false, false, false
+	objs := map[string]*big.Int{}
 	touched := map[uint64]bool{}
 	for si, st := range c.Steps {
 		prevVal := model.Get(st.Index)
@@ -120,7 +128,20 @@ func runC18(c c18Case) Result {
 		}
 		touched[st.Index] = true
 
-		path := tree.Update(int(st.Index), *ref.Clone(st.Value))
+		// Callers may pass the same big.Int again (Update takes it by value, i.e. a shallow copy that shares the
+		// digit array): equal values re-use one object here, while the model keeps deep copies.
+		key := st.Value.String()
+		obj, seen := objs[key]
+		if !seen {
+			obj = ref.Clone(st.Value)
+			objs[key] = obj
+		} else {
+			reusedObject = true
+		}
+		path := tree.Update(int(st.Index), *obj)
+		if obj.Cmp(st.Value) != 0 {
+			return bad(class, "Update:writes-through-shared-value", "step %d: Update wrote through the digit array it shares with the caller: the value object passed for this and earlier leaves changed from %s to %s, so a leaf that was not updated no longer keeps its value", si, st.Value, obj)
+		}
 		model.Set(st.Index, st.Value)
 		wantRoot, wantPath := model.RootAndPath(st.Index)
 		if c.Depth <= 8 {
@@ -150,7 +171,11 @@ func runC18(c c18Case) Result {
 			return bad(class, "Update:path-new", "step %d: path does not authenticate new value against new root", si)
 		}
 	}
-	return ok(class, overwrite || erase || bothChildren)
+	r := ok(class, overwrite || erase || bothChildren)
+	if reusedObject {
+		r = r.tag("same-value-object-passed-again")
+	}
+	return r
 }
 
 func depthBucket(d int) int {
